@@ -369,8 +369,9 @@ class Interp:
         self.events.append((name, list(self.pc), payload))
 
     # ---------------- path exploration ----------------
-    def explore(self, thunk, max_paths=20000):
-        """run thunk() under every feasible decision sequence; yields (pc list, result or exception)"""
+    def explore(self, thunk, max_paths=20000, stop=None):
+        """run thunk() under every feasible decision sequence; yields (pc list, result or exception);
+        stop(result) -> True ends the exploration early (a violation was found: the remaining paths cannot change the verdict)"""
         results = []
         self.all_events = []
         stack = [[]]
@@ -385,6 +386,8 @@ class Interp:
                 r = thunk()
                 results.append((list(self.pc), r, None))
                 self.all_events.append((list(self.pc), list(self.events)))
+                if stop is not None and stop(r):
+                    return results
             except PathAbort:
                 pass
             except RustPanic as e:
